@@ -76,6 +76,21 @@ ZhitSteps(o, nwin) ==
 FitTotal(nm, nw) == nm * nw + 1
 FitSteps(nm, nw) == nm * nw + 1
 
+\* evaluate_log_F_ext with num_F_ext_evaluations = n > 0 (kramers_kronig/exploratory.py l.1175-1200 vs the loops of
+\* _evaluate_log_F_ext_using_custom_approach l.862-950): weight, baseline, stage 1 = ceil(n/2)+1 grid points minus the
+\* one at 0 (z = 1 iff 0 is on the grid), stage 2 = max(3, n - |stage 1 results| + 1) - 2 points minus those within
+\* 1e-4 of a stage-1 point (dup), and the exit
+KkCustomTotal(n) == 2 + n + 1
+KkStage1(n) == (n + 1) \div 2 + 1
+KkCustomSteps(n, z, dup) ==
+    LET s1 == KkStage1(n)
+        m == n - (s1 + 1 - z) + 1
+        num == IF m > 3 THEN m ELSE 3
+    IN 1 + 1 + (s1 - z) + (num - 2 - dup) + 1
+KkNeverOverruns(nmax) ==
+    \A n \in 10..nmax : \A z \in 0..1 : \A dup \in 0..2 : KkCustomSteps(n, z, dup) <= KkCustomTotal(n)
+KkStepsBound(n) == KkCustomSteps(n, 0, 0)       \* the most steps any run can take (= n + 1)
+
 ZhitOptions == [window : {"auto", "named"}, smoothing : {"auto", "one"}, interpolation : {"auto", "one"}, custom : BOOLEAN]
 
 \* no option combination overruns its total (NWin >= 1: the window table is not empty)
